@@ -79,6 +79,23 @@ type S1 []S1
 type P1 *P1
 type C1 chan C1
 type St struct{ s fmt.Stringer }
+type Cel = float64
+type RA = *RB
+type RB struct {
+	next RA
+	xs   []RA
+	f    func(RA, ...Cel) RA
+}
+type LC struct {
+	next *LC
+	v    []Cel
+}
+type GA[T any] struct {
+	next *GA[T]
+	v    [2]T
+}
+type IC interface{ m(Cel) interface{ IC } }
+type IF interface{ m(float64) interface{ IF } }
 
 var (
 	ia  interface{ A }
@@ -116,14 +133,23 @@ var (
 		a interface{ A }
 		b interface{ B }
 	}
+	ra  RA
+	rb  RB
+	lc  LC
+	gac GA[Cel]
+	gaf GA[float64]
+	ic  interface{ IC }
+	iff interface{ IF }
 )
 `
 
 var deepSingles = []string{"ia", "ib", "ia1", "ia3", "iaf", "va", "vx", "vy", "l", "pl", "tr", "ff", "rec", "ri", "big", "pp", "gl", "gls", "emb", "m1", "s1", "q1", "c1", "st",
-	"mab", "fab", "m3", "sab", "&tr", "tr.kids", "gl.next", "ff(ff)", "rec.Self()", "[]interface{ A }{ia}", "func(interface{ A }) {}"}
+	"mab", "fab", "m3", "sab", "&tr", "tr.kids", "gl.next", "ff(ff)", "rec.Self()", "[]interface{ A }{ia}", "func(interface{ A }) {}",
+	"ra", "rb", "lc", "gac", "ic", "rb.f", "gac.v", "[]RA{ra}"}
 
 var deepPairs = [][2]string{{"ia", "ib"}, {"ib", "ia"}, {"ia1", "ib1"}, {"ia3", "ib3"}, {"iaf", "ibf"}, {"va", "vb"}, {"vx", "vy"}, {"gl", "gls"}, {"m1", "s1"}, {"l", "pl"}, {"mab", "fab"},
-	{"ia", "va"}, {"tr", "tr"}, {"ff", "ff"}, {"rec", "ri"}, {"emb", "l"}, {"q1", "pp"}}
+	{"ia", "va"}, {"tr", "tr"}, {"ff", "ff"}, {"rec", "ri"}, {"emb", "l"}, {"q1", "pp"},
+	{"gac", "gaf"}, {"gaf", "gac"}, {"ra", "&rb"}, {"ic", "iff"}, {"iff", "ic"}, {"gac.v", "gaf.v"}}
 
 const deepPrelude = `
 func idFilter(ctx *dsl.VarFilterContext) bool {
@@ -225,18 +251,19 @@ func deepPattern(in deepInst, k int) string {
 	return fmt.Sprintf("p%d($x)", k)
 }
 
-func deepResult(in deepInst, pattern, site, panicMsg, loadErr string, reports int, bads []bad) result {
-	return result{K: "run", Inst: in.name, Ctor: "", Shape: "deep", Pattern: pattern, Where: in.d.Go(), Site: site, Panic: panicMsg, LoadErr: loadErr, Reports: reports, Bad: bads}
+func deepResult(alias string, in deepInst, pattern, site, panicMsg, loadErr string, reports int, bads []bad) result {
+	return result{K: "run", Inst: in.name, Ctor: "", Shape: "deep", Pattern: pattern, Where: in.d.Go(), Site: site, Alias: alias, Panic: panicMsg, LoadErr: loadErr, Reports: reports, Bad: bads}
 }
 
 // runDeep is the child. per < 0: instances from..end, all sites of an instance in one engine run. per >= 0: the sites
 // from..end of instance `per`, one engine run each. Every unit is announced before it runs.
 func runDeep(tmp string, per, from int) {
 	debug.SetMaxStack(48 << 20) // an unbounded recursion dies quickly instead of eating a gigabyte first
+	alias := prodAlias()
 	out := bufio.NewWriter(os.Stdout)
 	enc := json.NewEncoder(out)
 	src, _, _ := deepTarget()
-	t, err := hutil.CheckTarget(tmp, "deep/deep.go", []byte(src))
+	t, err := hutil.CheckTarget(tmp, "deep"+alias+"/deep.go", []byte(src))
 	if err != nil {
 		fmt.Fprintln(os.Stderr, err)
 		os.Exit(3)
@@ -262,7 +289,7 @@ func runDeep(tmp string, per, from int) {
 		}
 		eng, lerr := filt.Load(t.Fset, filt.RulesFile(prelude, rules))
 		if lerr != nil {
-			enc.Encode(deepResult(in, pat, label, "", lerr.Error(), 0, nil))
+			enc.Encode(deepResult(alias, in, pat, label, "", lerr.Error(), 0, nil))
 			out.Flush()
 			return
 		}
@@ -274,7 +301,7 @@ func runDeep(tmp string, per, from int) {
 			}
 			return
 		}
-		enc.Encode(deepResult(in, pat, label, pmsg, "", n, bads))
+		enc.Encode(deepResult(alias, in, pat, label, pmsg, "", n, bads))
 		out.Flush()
 	}
 	unitRef = unit
@@ -298,10 +325,16 @@ func runDeep(tmp string, per, from int) {
 }
 
 // child runs one child process; it returns the last announced unit, whether the child finished, and why it did not.
-func child(tmp string, per, from int, budget time.Duration, forward bool) (last int, done bool, why string) {
+func child(tmp, alias string, per, from int, budget time.Duration, forward bool) (last int, done bool, why string) {
 	ctx, cancel := context.WithTimeout(context.Background(), budget)
 	defer cancel()
 	cmd := exec.CommandContext(ctx, os.Args[0], "-deep", "-deepper", fmt.Sprint(per), "-deepfrom", fmt.Sprint(from), "-tmp", tmp)
+	for _, kv := range os.Environ() {
+		if !strings.HasPrefix(kv, "GODEBUG=") {
+			cmd.Env = append(cmd.Env, kv)
+		}
+	}
+	cmd.Env = append(cmd.Env, "GODEBUG=gotypesalias="+alias)
 	var stderr strings.Builder
 	cmd.Stderr = &stderr
 	stdout, err := cmd.StdoutPipe()
@@ -340,35 +373,35 @@ func child(tmp string, per, from int, budget time.Duration, forward bool) (last 
 
 // spawnDeep is the parent side: all instances in one child; when it dies in instance i, that instance is re-run site by
 // site (each death names one site), then the sweep resumes behind i.
-func spawnDeep(enc *json.Encoder, tmp string, budget time.Duration) {
+func spawnDeep(enc *json.Encoder, tmp, alias string, budget time.Duration) {
 	insts := deepInsts()
 	from := 0
 	for guard := 0; from < len(insts) && guard <= len(insts); guard++ {
-		last, done, why := child(tmp, -1, from, budget, true)
+		last, done, why := child(tmp, alias, -1, from, budget, true)
 		if done {
 			return
 		}
 		if last < from {
-			enc.Encode(result{K: "run", Inst: "deep", Shape: "deep", Panic: "the child process died before its first case: " + why})
+			enc.Encode(result{K: "run", Inst: "deep", Shape: "deep", Alias: alias, Panic: "the child process died before its first case: " + why})
 			return
 		}
 		in := insts[last]
 		sites, base := sitesOf(in)
 		named := false
 		for s, g2 := 0, 0; s < len(sites) && g2 <= len(sites); g2++ {
-			l2, d2, w2 := child(tmp, last, s, budget, false)
+			l2, d2, w2 := child(tmp, alias, last, s, budget, false)
 			if d2 {
 				break
 			}
 			if l2 < s {
 				break
 			}
-			enc.Encode(deepResult(in, deepPattern(in, base+l2), sites[l2], w2, "", 0, nil))
+			enc.Encode(deepResult(alias, in, deepPattern(in, base+l2), sites[l2], w2, "", 0, nil))
 			named = true
 			s = l2 + 1
 		}
 		if !named {
-			enc.Encode(deepResult(in, "p<K>(...)", fmt.Sprintf("all %d sites together (no single site reproduces it)", len(sites)), why, "", 0, nil))
+			enc.Encode(deepResult(alias, in, "p<K>(...)", fmt.Sprintf("all %d sites together (no single site reproduces it)", len(sites)), why, "", 0, nil))
 		}
 		from = last + 1
 	}
